@@ -226,3 +226,27 @@ C15 = [
     _ck("hwloc_cpukinds_get_by_cpuset", note="index of the containing kind, EXDEV iff straddling/partially covered, ENOENT iff disjoint from all kinds, EINVAL for flags/NULL/empty; <= 3 kinds, 8-PU universe"),
 ]
 PROPS["C15"] = C15
+
+
+# ------------------------------------------------------------------ C14 memattrs.c (selection logic)
+def _ma(name, unwind=6, cost=20, label="bounded", **kw):
+    return Job(name=name, driver="memattrs.drv.c", entry="hp_" + name, mode="plain", unwind=unwind, min_post=0, cost=cost, family="memattrs", label=label, **kw)
+
+C14 = [
+    _ma("hwloc__update_best_target", label="proof", note="update step: found afterwards, strictly better replaces, ties and worse leave best unchanged; all 2^64 values (loop-free, complete)"),
+    _ma("hwloc__update_best_initiator", label="proof", note="same for initiators (loop-free, complete)"),
+] + [
+    Job(name="hwloc_memattr_get_best_target.%s" % tag, driver="memattrs.drv.c", entry="hp_hwloc_memattr_get_best_target", mode="plain", unwind=6, min_post=0, cost=60,
+        family="memattrs", label="bounded", defines={"MA_AFLAGS": fl, "MA_ID": idv},
+        note="optimal value among all stored targets, first target on ties, ENOENT when none, EINVAL for flags/unknown id; attribute without initiators (%s), <= 4 targets, arbitrary values; loops unwound" % tag)
+    for tag, fl, idv in (("higher", "HWLOC_MEMATTR_FLAG_HIGHER_FIRST", 0), ("lower", "HWLOC_MEMATTR_FLAG_LOWER_FIRST", 0), ("unknown_id", "HWLOC_MEMATTR_FLAG_LOWER_FIRST", 3))
+] + [
+    Job(name="hwloc_memattr_get_best_initiator.%s" % tag, driver="memattrs.drv.c", entry="hp_hwloc_memattr_get_best_initiator", mode="plain", unwind=6, min_post=0, cost=60,
+        family="memattrs", label="bounded", defines={"MA_AFLAGS": fl, "MA_ID": idv},
+        note="optimal value among all stored initiators of the target, ENOENT when none, EINVAL clauses (%s); <= 4 initiators" % tag)
+    for tag, fl, idv in (("higher", "(HWLOC_MEMATTR_FLAG_HIGHER_FIRST|HWLOC_MEMATTR_FLAG_NEED_INITIATOR)", 0), ("lower", "(HWLOC_MEMATTR_FLAG_LOWER_FIRST|HWLOC_MEMATTR_FLAG_NEED_INITIATOR)", 0),
+                         ("no_initiator_attr", "HWLOC_MEMATTR_FLAG_LOWER_FIRST", 0), ("unknown_id", "(HWLOC_MEMATTR_FLAG_LOWER_FIRST|HWLOC_MEMATTR_FLAG_NEED_INITIATOR)", 3))
+] + [
+    _ma("hwloc_memattr_register", cost=60, note="exactly one of HIGHER/LOWER_FIRST else EINVAL, NULL name EINVAL, duplicate name EBUSY, success appends with next id; <= 2 existing attributes, 2-char names"),
+]
+PROPS["C14"] = C14
